@@ -11,7 +11,7 @@ HARNESS = "c18"
 # -n = number of scenarios (store pre-state x operation x sharding function); every scenario is run once
 # without a fault and once per (system call of the operation) x (SIGKILL | injected errno)
 COUNTS = {"quick": 10, "thorough": 0}
-HARNESS_TIMEOUT = {"quick": 900, "thorough": 3600}
+HARNESS_TIMEOUT = {"quick": 2400, "thorough": 7200}
 DESIGN_REF = "DESIGN.md §4 C18"
 TECHNIQUE = ("Coq proof of an invariant over all interleavings x crash prefixes x failing system calls of the "
              "writer state machine + strace system-call trace comparison + SIGKILL/errno injection on the real binary "
